@@ -1208,6 +1208,10 @@ func (ex *Ex) typeAssert(fr *Frame, st *State, x *ssa.TypeAssert) {
 	} else {
 		ok = Eq(Dyn(iv), w.TypeConst(at))
 		res = ex.unboxAs(iv, at)
+		if _, isPtr := at.Underlying().(*types.Pointer); isPtr {
+			// T13: interface values never hold typed-nil pointers
+			st.Assume(Implies(ok, Not(Eq(res, NilRef))))
+		}
 		if x.CommaOk {
 			res = Ite(ok, res, w.Zero(at))
 		}
